@@ -442,13 +442,16 @@ def r4_guards(r, facts):
         n += 1
         eg = ExprBuilder(g, multi='leaf')
         ok = False
+        # the amount skipped: the (multi-definition) counter local passed to skip(), whatever its name
+        amount = eg.operand(t['args'][1])
+        nloc = {x[1] for x in subexprs(amount) if x[0] == 'local'}
         for (b, tgt) in c10.controlling_switches(g, loc):
             e = eg.operand(g.term(b)['discr'])
             if e[0] == 'bin' and e[1] in ('Le', 'Gt', 'Lt', 'Ge'):
                 vals = {int(v): tg for v, tg in g.term(b)['targets']}
                 t_true, t_false = vals.get(1, g.term(b)['otherwise']), vals.get(0)
-                sa = any(x[0] == 'local' and x[2] == 'skip' for x in subexprs(e[2]))
-                sb = any(x[0] == 'local' and x[2] == 'skip' for x in subexprs(e[3]))
+                sa = any(x[0] == 'local' and x[1] in nloc for x in subexprs(e[2]))
+                sb = any(x[0] == 'local' and x[1] in nloc for x in subexprs(e[3]))
                 la = any(x[0] == 'call' and x[1].endswith('IoSlice::len') for x in subexprs(e[2]))
                 lb = any(x[0] == 'call' and x[1].endswith('IoSlice::len') for x in subexprs(e[3]))
                 if (e[1] == 'Le' and la and sb and tgt == t_false) or (e[1] == 'Gt' and la and sb and tgt == t_true) or \
